@@ -195,6 +195,12 @@ class Runner:
             for m in ("x", "y", "d"):
                 if isinstance(k.get(m), str):
                     ev[m + "len"] = _b64len(k[m])
+            if k.get("kty") == "RSA":
+                ms = [k[m] for m in ("n", "e", "d", "p", "q", "dp", "dq", "qi") if isinstance(k.get(m), str)]
+                try:
+                    ev["rsamin"] = int(all(len(x) > 0 and base64.urlsafe_b64decode(x + "=" * (-len(x) % 4))[:1] != b"\x00" for x in ms))
+                except Exception:
+                    ev["rsamin"] = 0
             jw = os.path.join(d, "out.jwks")
             with open(jw, "wb") as f:
                 f.write(out1)
